@@ -410,6 +410,7 @@ func ruleHopGuardsResponse(c *Ctx, p *Prog, rule string) {
 		n := 0
 		EachInstr(fn, func(i ssa.Instruction) {
 			var key, dest ssa.Value
+			isSet := false
 			switch x := i.(type) {
 			case *ssa.MapUpdate:
 				if NamedType(x.Map.Type()) == "net/http.Header" {
@@ -418,6 +419,7 @@ func ruleHopGuardsResponse(c *Ctx, p *Prog, rule string) {
 			case *ssa.Call:
 				if n := CalleeName(x.Common()); n == "(net/http.Header).Add" || n == "(net/http.Header).Set" {
 					key, dest = x.Call.Args[1], x.Call.Args[0]
+					isSet = n == "(net/http.Header).Set"
 				}
 			}
 			if key == nil {
@@ -435,6 +437,11 @@ func ruleHopGuardsResponse(c *Ctx, p *Prog, rule string) {
 			n++
 			k := fmt.Sprintf("%s:copy#%d", fnName, n)
 			c.Check(rule, k, p, i.Pos(), hopGuard(i, key, false), "copy of header/trailer field guarded by the hop-by-hop predicate on the same key", "header/trailer field "+PathOf(key)+" is copied to the response without the hop-by-hop test on that key: hop-by-hop fields would reach the client")
+			if isSet {
+				c.Bad(rule, k+":keeps-all-values", p, i.Pos(), "the field "+PathOf(key)+" is copied with Header.Set: only one value per field survives, repeated fields (Set-Cookie, Via, repeated trailers) lose all but the last value")
+			} else {
+				c.OK(rule, k+":keeps-all-values", p, i.Pos(), "copied with Add / whole-slice store: every value of a repeated field is kept, in order")
+			}
 			// no other filter: every condition the copy depends on is of a known kind
 			if extra := unknownGuards(p, i, fn); extra != "" {
 				c.Bad(rule, k+":no-extra-filter", p, i.Pos(), "the copy of header/trailer field "+PathOf(key)+" additionally depends on "+extra+": a filter other than the hop-by-hop predicate drops end-to-end fields or trailers for some responses")
